@@ -1,9 +1,164 @@
 import Gzx.Util
+import Gzx.Ref.DM
+import Gzx.Model.DMEncoder
+import Gzx.Model.DMDecoder
 namespace Gzx.Driver.C08
 open Gzx
 
-/-- line-protocol handler of suite `c08` (arguments after the suite name) -/
+/-- the model of `factorSets` / `factors`: the standard's generator polynomials
+    (`Obligations.C08` proves the regenerated Go tables equal them) -/
+def factorSets : List Nat := DMRef.parityLengths
+def factors : List (List Nat) := DMRef.factorTable
+
+/-- a modelled Go panic prints as the harness prints a recovered panic -/
+def showR {α} (f : α → String) : Res α → String
+  | .ok a => f a
+  | .error e => if e.isPanic then "PANIC" else "ERR:" ++ e.tag
+
+def showRows (rows : List (List Bool)) : String := "/".intercalate (rows.map showBits)
+
+def showSym (s : DMEnc.SymbolInfo) : String :=
+  let bc := match s.interleavedBlockCount with | .ok b => toString b | .error e => showR (fun (_ : Unit) => "") (.error e)
+  let n := match s.interleavedBlockCount with | .ok b => b.toNat | .error _ => 0
+  let dls := (List.range n).map (fun i => s.dataLengthForInterleavedBlock (i + 1))
+  let els := (List.range n).map (fun i => s.errorLengthForInterleavedBlock (i + 1))
+  s!"rect={s.rectangular} cap={s.dataCapacity} err={s.errorCodewords} mw={s.matrixWidth} mh={s.matrixHeight} " ++
+  s!"regions={s.dataRegions} h={s.horizontalDataRegions} v={s.verticalDataRegions} w={s.symbolWidth} " ++
+  s!"hgt={s.symbolHeight} dw={s.symbolDataWidth} dh={s.symbolDataHeight} blocks={bc} dl={showIntList dls} el={showNatList els}"
+
+def showVersion (v : DMDec.Version) : String :=
+  s!"n={v.versionNumber} rows={v.symbolSizeRows} cols={v.symbolSizeColumns} rr={v.dataRegionSizeRows} " ++
+  s!"rc={v.dataRegionSizeColumns} ec={v.ecCodewords} total={v.totalCodewords} blocks=" ++
+  ";".intercalate (v.ecBlocks.map (fun b => s!"{b.count}x{b.dataCodewords}"))
+
+def gridOf (w h : Nat) (bits : List Bool) : DMDec.BitGrid := ⟨w, h, bits.toArray⟩
+
+/-- "rows/of/bits" → grid (width = length of the first row) -/
+def parseGrid (s : String) : DMDec.BitGrid :=
+  let rows := (s.splitOn "/").map parseBits
+  let w := (rows.headD []).length
+  ⟨w, rows.length, (rows.flatMap id).toArray⟩
+
+def showGrid (g : DMDec.BitGrid) : String :=
+  let bits := g.bits.toList
+  if g.width = 0 then s!"{g.width}x{g.height}"
+  else "/".intercalate ((List.range g.height).map (fun y => showBits ((bits.drop (y * g.width)).take g.width)))
+
+def showBlocks (bs : List (Nat × List Nat)) : String :=
+  "|".intercalate (bs.map (fun b => s!"{b.1}:{showHex b.2}"))
+
 def handle : List String → String
+  | ["nsyms"] => toString DMEnc.symbols.length
+  | ["sym", i] =>
+    match (parseNat? i).bind (fun i => DMEnc.symbols[i]?) with
+    | some s => showSym s
+    | none => "none"
+  | ["ecc", i, hex] =>
+    match (parseNat? i).bind (fun i => DMRef.symbols[i]?), parseHex? hex with
+    | some s, some d => showHex (DMRef.codewords s d)
+    | _, _ => "bad-op"
+  | ["mecc", i, hex] =>
+    match (parseNat? i).bind (fun i => DMEnc.symbols[i]?), parseHex? hex with
+    | some s, some d => showR showHex (DMEnc.encodeECC200 factorSets factors d s)
+    | _, _ => "bad-op"
+  | ["mecc-norot", i, hex] =>
+    match (parseNat? i).bind (fun i => DMEnc.symbols[i]?), parseHex? hex with
+    | some s, some d => showR showHex (DMEnc.encodeECC200 factorSets factors d s false)
+    | _, _ => "bad-op"
+  | ["eccblk", n, hex] =>
+    match parseNat? n, parseHex? hex with
+    | some n, some d => showR showHex (DMEnc.createECCBlock factorSets factors d n)
+    | _, _ => "bad-op"
+  | ["refeccblk", n, hex] =>
+    match parseNat? n, parseHex? hex with
+    | some n, some d => showHex (DMRef.eccBlock n d)
+    | _, _ => "bad-op"
+  | ["place", cols, rows, hex] =>
+    match parseNat? cols, parseNat? rows, parseHex? hex with
+    | some c, some r, some cw => showBits (DMRef.mappingBits r c cw).toList
+    | _, _, _ => "bad-op"
+  | ["matrix", i, hex] =>
+    match (parseNat? i).bind (fun i => DMRef.symbols[i]?), parseHex? hex with
+    | some s, some cw => showRows (DMRef.symbolOfCodewords s cw)
+    | _, _ => "bad-op"
+  | ["mmatrix", i, hex] =>
+    match (parseNat? i).bind (fun i => DMEnc.symbols[i]?), parseHex? hex with
+    | some s, some cw =>
+      let m := DMRef.mappingBits s.symbolDataHeight s.symbolDataWidth cw
+      showR showRows (DMEnc.encodeLowLevel s (fun x y => m.getD (y * s.symbolDataWidth + x) false))
+    | _, _ => "bad-op"
+  | ["mfull", i, hex] =>
+    match (parseNat? i).bind (fun i => DMEnc.symbols[i]?), parseHex? hex with
+    | some s, some d =>
+      match DMEnc.encodeECC200 factorSets factors d s with
+      | .error e => showR (fun (_ : Unit) => "") (.error e)
+      | .ok cw =>
+        let m := DMRef.mappingBits s.symbolDataHeight s.symbolDataWidth cw
+        showR showRows (DMEnc.encodeLowLevel s (fun x y => m.getD (y * s.symbolDataWidth + x) false))
+    | _, _ => "bad-op"
+  | ["full", i, hex] =>
+    match (parseNat? i).bind (fun i => DMRef.symbols[i]?), parseHex? hex with
+    | some s, some d => showRows (DMRef.symbolBits s d)
+    | _, _ => "bad-op"
+  | ["r253", lo, hi] =>
+    match parseNat? lo, parseNat? hi with
+    | some lo, some hi => showIntList ((List.range (hi + 1 - lo)).map (fun (k : Nat) => DMEnc.randomize253State ((lo + k : Nat) : Int)))
+    | _, _ => "bad-op"
+  | ["ref253", lo, hi] =>
+    match parseNat? lo, parseNat? hi with
+    | some lo, some hi => showNatList ((List.range (hi + 1 - lo)).map (fun k => DMRef.randomize253 (lo + k)))
+    | _, _ => "bad-op"
+  | ["r255", pos] =>
+    match parseNat? pos with
+    | some p => showIntList ((List.range 256).map (fun (b : Nat) => DMEnc.randomize255State b p))
+    | _ => "bad-op"
+  | ["ref255", pos] =>
+    match parseNat? pos with
+    | some p => showNatList ((List.range 256).map (fun b => DMRef.randomize255 b p))
+    | _ => "bad-op"
+  | ["u255", pos] =>
+    match parseNat? pos with
+    | some p => showIntList ((List.range 256).map (fun (b : Nat) => DMDec.unrandomize255State b p))
+    | _ => "bad-op"
+  | ["refu255", pos] =>
+    match parseNat? pos with
+    | some p => showNatList ((List.range 256).map (fun b => DMRef.unrandomize255 b p))
+    | _ => "bad-op"
+  | ["gftables"] => "alog=" ++ showNatList DMEnc.alog ++ " log=" ++ showNatList DMEnc.log
+  | ["refgftables"] => "alog=" ++ showNatList DMRef.expTable ++ " log=" ++ showNatList DMRef.logTable
+  | ["factors"] => showNatList factorSets ++ " " ++ "|".intercalate (factors.map showNatList)
+  | ["nversions"] => toString DMDec.versions.length
+  | ["version", i] =>
+    match (parseNat? i).bind (fun i => DMDec.versions[i]?) with
+    | some v => showVersion v
+    | none => "none"
+  | ["dver", rows, cols] =>
+    match parseNat? rows, parseNat? cols with
+    | some r, some c => showR showVersion (DMDec.getVersionForDimensions DMDec.versions r c)
+    | _, _ => "bad-op"
+  | ["dextract", grid] =>
+    showR (fun (vm : DMDec.Version × DMDec.BitGrid) => showGrid vm.2)
+      (DMDec.newBitMatrixParser DMDec.versions (parseGrid grid))
+  | ["dread", grid] =>
+    match DMDec.newBitMatrixParser DMDec.versions (parseGrid grid) with
+    | .error e => showR (fun (_ : Unit) => "") (.error e)
+    | .ok (v, m) => showR showHex (DMDec.readCodewords v m)
+  | ["dblocks", rows, cols, hex] =>
+    match parseNat? rows, parseNat? cols, parseHex? hex with
+    | some r, some c, some raw =>
+      match DMDec.getVersionForDimensions DMDec.versions r c with
+      | .error e => showR (fun (_ : Unit) => "") (.error e)
+      | .ok v => showR showBlocks (DMDec.getDataBlocks raw v)
+    | _, _, _ => "bad-op"
+  | ["dresult", rows, cols, hex] =>
+    match parseNat? rows, parseNat? cols, parseHex? hex with
+    | some r, some c, some raw =>
+      match DMDec.getVersionForDimensions DMDec.versions r c with
+      | .error e => showR (fun (_ : Unit) => "") (.error e)
+      | .ok v => match DMDec.getDataBlocks raw v with
+        | .error e => showR (fun (_ : Unit) => "") (.error e)
+        | .ok bs => showR showHex (DMDec.resultBytes bs)
+    | _, _, _ => "bad-op"
   | _ => "bad-op"
 
 end Gzx.Driver.C08
